@@ -224,14 +224,30 @@ func jsonCarries(doc types.Value) bool {
 	return true
 }
 
+// lastForeign: the most recent foreign-form conversion run in this process (see foreign.go)
+var lastForeign string
+
 func check(tc tcase, o outcome) []lib.OracleFail {
 	var fails []lib.OracleFail
 	add := func(class, what string) {
-		fails = append(fails, lib.OracleFail{Class: class, What: what, Replay: tc.opLine() + "\n# implementation: " + o.line(tc.op == "js")})
+		replay := tc.opLine() + "\n# implementation: " + o.line(tc.op == "js")
+		if lastForeign != "" {
+			// the process-global decoder caches make the history part of the replay
+			replay = "# decoded earlier in this process (foreign document form): " + lastForeign + "\n" + replay
+		}
+		fails = append(fails, lib.OracleFail{Class: class, What: what, Replay: replay})
 	}
 	pre := ""
 	if tc.op == "js" {
 		pre = "json-"
+	}
+	if tc.op == "as" {
+		// a conversion between different types (a foreign document form, a spec conversion): an error is a legitimate
+		// outcome and the model predicts it (correspondence); only a panic is judged here
+		if o.panicked != "" {
+			add("panic", "panic during "+o.panicked)
+		}
+		return fails
 	}
 	switch {
 	case o.panicked != "":
@@ -578,6 +594,7 @@ func Run(c *lib.Ctx) {
 		"inline-map keys are disjoint from the aliases of the enclosing struct; a struct has at most one inline map and inline structs contain none (C16 well-formedness, GoType.wf)",
 		"types outside the modelled universe (channels, funcs, custom marshalers other than time.Time/time.Duration/uuid.UUID, io.Reader buffers, error values, non-string map keys) are not claimed",
 		"maps behave as dictionaries in Range order (C15) and Equal/Compare/Hash are lawful (C14)",
+		"decode history: foreign document forms (a list of numbers or base64 text for []byte, milliseconds or RFC 3339 text for a time, numbers of another kind, decimal text …) are decoded into typed targets on the same process-global types.Decoder, interleaved with the round trips; every such decode is compared with the model's decode and followed by round trips of the target type",
 		"JSON: integers within ±2^53, finite floats, valid UTF-8 text (guards of C16.roundtrip_json); js lines within the guards and without Float32 values are compared with the model's jsonForm + decode, the others are checked by the oracle only",
 		"omitempty: Go tests reflect.Value.IsZero first and then Equal(encoding, encoding of the zero value); the model has only the second test (a zero value encodes like the zero value)",
 	}
@@ -658,6 +675,18 @@ func Run(c *lib.Ctx) {
 		t := g.typ(r.Range(1, 4), true)
 		if op == "js" && t.has("barr") && r.Chance(9, 10) {
 			op, g.json = "rt", false
+		}
+		if r.Chance(1, 5) {
+			// a foreign (legal, but not self-encoded) document for a typed target, then a round trip of that target
+			// type in the same process: the result of the round trip must not depend on the decode before it
+			g.json = false
+			ftc, after := g.foreign()
+			run(ftc)
+			lastForeign = ftc.opLine()
+			run(tcase{op: "rt", src: after, dst: after, v: g.val(after, 2)})
+			w := structOf([]field{{mode: 'n', alias: "data", t: after}, {mode: 'o', alias: "opt", t: ptrOf(after)}})
+			run(tcase{op: lib.Pick(r, []string{"rt", "js"}), src: w, dst: w, v: g.val(w, 2)})
+			g.json = op == "js"
 		}
 		v := g.val(t, 4)
 		tc := tcase{op: op, src: t, dst: t, v: v}
